@@ -296,7 +296,7 @@ def main():
                     errors.append("clause %s: more than 5%% of the cases were inconclusive" % n)
         # generator-drift warning
         for n, m in clauses.items():
-            if m["evaluations"] >= 50 and len(m["nt"]) * 20 < m["evaluations"] - m["excluded_known"] and not m["exhaustive"]:
+            if m["evaluations"] >= 50 and len(m["nt"]) * 20 < m["evaluations"] - m["excluded_known"] and not m["exhaustive"] and not n.endswith("_fuzz"):
                 lines.append("WARNING: clause %s: only %d distinct non-trivial of %d evaluations" % (n, len(m["nt"]), m["evaluations"]))
     finally:
         shutil.rmtree(work, ignore_errors=True)
